@@ -267,6 +267,11 @@ class FakeLoop:
         self.world = world
 
     def run_in_executor(self, executor: Any, func: Callable[..., Any], *args: Any) -> FakeFuture:
+        if executor is None:
+            # the event loop's default executor: min(32, cpus + 4) workers, shared by everything running in the loop
+            if self.world.default_pool is None:
+                self.world.default_pool = FakePool(self.world, 32)
+            executor = self.world.default_pool
         if not isinstance(executor, FakePool):
             raise HarnessError("run_in_executor with an executor that is not modelled: %r" % (executor,))
         fut = FakeFuture(self.world, "async")
@@ -289,6 +294,19 @@ class FakeLoop:
             func = functools.partial(func.func, *func.args, **kw)
         executor.start_or_queue(fut, func, args, {}, True)
         return fut
+
+
+def task_label(coro: Any) -> Optional[str]:
+    """Best effort: the node a coroutine handed to ensure_future will run (None when it cannot be told)."""
+    try:
+        for v in coro.cr_frame.f_locals.values():
+            owner = getattr(v, "__self__", None)
+            i = getattr(owner, "id", None)
+            if isinstance(i, str):
+                return i.split(".")[-1]
+    except Exception:  # noqa: BLE001
+        pass
+    return None
 
 
 class FakeAsyncio:
@@ -319,6 +337,9 @@ class FakeAsyncio:
         task = FakeTask(self._world, coro)
         self._world.pending_tasks.append(task)
         self._world.event("ensure_future")
+        mon = self._world.monitor
+        if mon is not None and hasattr(mon, "dispatched"):
+            mon.dispatched(task_label(coro))
         return task
 
     create_task = ensure_future
@@ -334,6 +355,11 @@ class FakeAsyncio:
 
     def run(self, coro: Any) -> Any:
         return self._world.drive(coro)
+
+    async def to_thread(self, func: Any, *args: Any, **kwargs: Any) -> Any:
+        """asyncio.to_thread: runs func in the loop's default executor with a copy of the current context."""
+        ctx = contextvars.copy_context()
+        return await self._world.loop.run_in_executor(None, functools.partial(ctx.run, func, *args, **kwargs))
 
     def __getattr__(self, name: str) -> Any:
         raise HarnessError("asyncio.%s is not modelled" % name)
@@ -353,6 +379,8 @@ class World:
         self.in_flight: List[FakeFuture] = []  # started and not finished, pool-run futures (not tasks)
         self.entered_contexts: Dict[int, FakeFuture] = {}
         self.queued: List[FakeFuture] = []  # handed to a pool whose workers are all busy
+        self.default_pool: Optional[FakePool] = None
+        self.deterministic = False
         self.suspend: Optional[Callable[[], Any]] = None
         self.events = 0
         self.lines = 0
@@ -451,7 +479,7 @@ class World:
         mon = self.monitor
         if return_when == ALL_COMPLETED:
             order = list(pending)
-            if len(order) > 1:
+            if len(order) > 1 and not self.deterministic:
                 k = c.choose(math.factorial(len(order)), "perm")
                 order = list(list(itertools.permutations(order))[k])
             self.event("finish", via, tuple(f.label for f in order))
@@ -480,7 +508,10 @@ class World:
             if not cand:
                 raise HarnessError("the scheduler waits for callables that can never start (all queued, no worker can be freed)")
         n = len(cand)
-        k = c.choose(2**n - 1, "done") + 1 if n > 1 else 1
+        if self.deterministic:
+            k = 2**n - 1
+        else:
+            k = c.choose(2**n - 1, "done") + 1 if n > 1 else 1
         done = {f for i, f in enumerate(cand) if (k >> i) & 1}
         self.event("finish", via, tuple(f.label for f in sorted(done, key=lambda f: f.uid)))
         for f in sorted(done, key=lambda f: f.uid):
@@ -582,9 +613,23 @@ def install_watchdog() -> None:
     except ValueError:
         pass
     mon.register_callback(tool, mon.events.LINE, _line_cb)
-    for obj in vars(H).values():
-        if isinstance(obj, types.FunctionType) and obj.__module__ == H.__name__:
-            mon.set_local_events(tool, obj.__code__, mon.events.LINE)
+    import tawazi._dag.dag as D
+    import tawazi._dag.digraph as G
+
+    def watch_module(mod: Any) -> None:
+        for obj in vars(mod).values():
+            if isinstance(obj, types.FunctionType) and obj.__module__ == mod.__name__:
+                mon.set_local_events(tool, obj.__code__, mon.events.LINE)
+            elif isinstance(obj, type) and obj.__module__ == mod.__name__:
+                for m in vars(obj).values():
+                    f = getattr(m, "__func__", m)
+                    f = getattr(f, "fget", f)
+                    if isinstance(f, types.FunctionType):
+                        mon.set_local_events(tool, f.__code__, mon.events.LINE)
+
+    # the scheduler module, and the graph / DAG modules (a loop that never ends there would hang the check as well)
+    for mod in (H, G, D):
+        watch_module(mod)
     _WATCH["installed"] = True
 
 
